@@ -83,15 +83,14 @@ def argval(arg):
 
 
 def typed_number(v, tag):
-    """the requested number as a Python float / int / bool or a numpy scalar (all are numbers.Real)"""
-    import numpy as np
-    if tag == "float":
-        return v
-    if tag == "int":
-        return int(v)
-    if tag == "bool":
-        return bool(v)
-    return {"float64": np.float64, "float32": np.float32, "int64": np.int64, "int32": np.int32}[tag](v)
+    return sl.typed_number(v, tag)
+
+
+def touch(q, obj):
+    """read the object through every public attribute (evaluate, print) before it is used again"""
+    str(obj), repr(obj)
+    for attr in ("value", "error", "std", "relative_error", "name", "unit"):
+        getattr(obj, attr, None)
 
 
 def run_op(q, objs, op):
@@ -116,8 +115,12 @@ def run_op(q, objs, op):
                 q.reset_correlations()
                 return ["done"]
             if kind == "set_err":
-                objs[op[1]].error = fx(op[2])
+                objs[op[1]].error = typed_number(fx(op[2]), op[3] if len(op) > 3 else "float")
                 return ["done"]
+            if kind == "touch":
+                touch(q, objs[op[1]])
+                r = q.get_correlation(objs[op[1]], objs[op[1]])
+                return ["ret", hx(r)] if sl.finite(r) else ["raised", "Other:nonfinite"]
             if kind == "set_value":
                 objs[op[1]].value = fx(op[2])
                 return ["done"]
@@ -154,10 +157,24 @@ def describe(objs, table):
     return out
 
 
+def run_prelude(q, case):
+    """an earlier session in the same interpreter: other quantities (possibly with the same values, uncertainties,
+    readings and names as those of the case) and their records; nothing is reset afterwards"""
+    pre = case.get("prelude")
+    if not pre:
+        return None
+    objs = [sl.build(qj) for qj in pre["table"]]
+    for op in pre["ops"]:
+        if op[0] != "reset":
+            run_op(q, objs, op)
+    return objs
+
+
 def run_case(case):
     """-> (description of the quantities, initial matrix, [(op, outcome, matrix)])"""
     import qexpy as q
     q.reset_correlations()
+    keep = run_prelude(q, case)             # an earlier session whose objects and records stay alive  # noqa: F841
     objs = [sl.build(qj) for qj in case["table"]]
     desc = describe(objs, case["table"])
     m0 = read_matrix(q, objs)
@@ -174,7 +191,33 @@ def gen_error(rng):
     return sl.dyadic(rng, 4, 4, positive=True, nonzero=True)
 
 
-def gen_table(rng):
+# the property is scale-free: every quantity has its own magnitude (powers of two keep the requests exact in doubles)
+POW2_SCALES = [2.0 ** -30, 2.0 ** -40, 2.0 ** -50, 2.0 ** 20]
+
+
+def gen_table(rng, scales=None):
+    tab = _gen_table(rng)
+    mode = rng.random()
+    common = rng.choice(POW2_SCALES)
+    out = []
+    for qj in tab:
+        f = 1.0 if mode < 0.6 else (common if mode < 0.75 else rng.choice(POW2_SCALES + [1.0, 1.0]))
+        if scales is not None:
+            scales.append(f)
+        if f != 1.0:
+            if qj[0] in ("single", "derived"):
+                qj = [qj[0], hx(fx(qj[1]) * f), None if qj[2] is None else hx(fx(qj[2]) * f)]
+            elif qj[0] == "repeated":
+                xs = [fx(h) * f for h in qj[1]]
+                e = qj[2]
+                e = None if e is None else ([hx(fx(h) * f) for h in e] if isinstance(e, list) else hx(fx(e) * f))
+                ok = qj[3] in ("list", "ndarray", "mixed", "npscalars") or all(sl.representable(x, sl.DTYPES[qj[3]]) for x in xs)
+                qj = ["repeated", [hx(x) for x in xs], e, qj[3] if ok else "ndarray"]
+        out.append(qj)
+    return out
+
+
+def _gen_table(rng):
     n = rng.choice([2, 3, 3, 4, 4, 5])
     common_len = rng.choice([2, 3, 3, 4, 5, 6, 8])
     table, plain_arrays = [], []
@@ -303,7 +346,8 @@ def number_arg(rng, m, setter, a, b, v):
     elif u < 0.72:
         tag = "float64"
     elif u < 0.84:
-        tag = rng.choice(["int64", "int64", "int32", "int", "bool" if v in (0.0, 1.0) else "int"]) if integral else "float64"
+        tag = rng.choice(["int64", "int64", "int32", "int", "bool" if v in (0.0, 1.0) else "int"]) if integral else \
+            rng.choice(["float64", "fraction"])
     else:
         tag = "float32"
     if tag == "float32":
@@ -344,8 +388,14 @@ def gen_op(rng, m):
         if not m.measured(a):
             return ["reset"]
         u = rng.random()
-        e = 0.0 if u < 0.12 else (-gen_error(rng) if u < 0.22 else gen_error(rng))
-        return ["set_err", a, hx(e)]
+        f = getattr(m, "scales", None)
+        f = f[a] if f else 1.0
+        e = 0.0 if u < 0.12 else (-gen_error(rng) * f if u < 0.22 else gen_error(rng) * f)
+        tag = "float"
+        if rng.random() < 0.35:
+            tag = rng.choice(["float64", "fraction", "int" if float(e).is_integer() else "float64",
+                              "float32" if sl.representable(e, "float32") else "float64"])
+        return ["set_err", a, hx(e), tag]
     if r < 0.145:
         meas = [i for i in range(m.n) if m.measured(i)]
         if not meas:
@@ -400,14 +450,66 @@ def gen_op(rng, m):
 
 
 def gen_case(rng):
-    table = gen_table(rng)
+    scales = []
+    table = gen_table(rng, scales)
+    case = {}
+    if rng.random() < 0.3:                          # an earlier session in the same interpreter, not reset
+        ptable = gen_table(rng)
+        pm = Mirror(ptable)
+        pops = []
+        for _ in range(rng.randrange(2, 10)):
+            op = gen_op(rng, pm)
+            if op[0] in ("set_corr", "set_cov", "set_err"):
+                pm.apply(op)
+                pops.append(op)
+        case["prelude"] = {"table": ptable, "ops": pops}
+        for j, qj in enumerate(ptable):             # the case's quantities repeat values / readings of the earlier ones
+            if j < len(table) and qj[0] == table[j][0] and qj[0] in ("single", "repeated") and rng.random() < 0.6 \
+                    and scales[j] == 1.0:
+                table[j] = [x for x in qj]
+    make_twins(rng, table, scales)
     m = Mirror(table)
+    m.scales = scales
     ops = []
     for _ in range(rng.randrange(6, 30)):
-        op = gen_op(rng, m)
+        u = rng.random()
+        if ops and u < 0.1:
+            op = ops[-1]                            # the same call (valid or not) offered twice
+        elif u < 0.16:
+            op = ["touch", rng.randrange(m.n)]      # read / print a quantity before it is used again
+        else:
+            op = gen_op(rng, m)
         m.apply(op)
         ops.append(op)
-    return {"table": table, "ops": ops}
+    case.update({"table": table, "ops": ops})
+    return case
+
+
+def make_twins(rng, table, scales):
+    """distinct objects with equal central values, uncertainties, readings and names; quantities that are elements
+    of a MeasurementArray; uncertainties given as int / numpy / Fraction numbers"""
+    n = len(table)
+    if n >= 2 and rng.random() < 0.3:
+        i, j = rng.sample(range(n), 2)
+        if table[i][0] == table[j][0] and table[i][0] in ("single", "repeated", "derived"):
+            table[j] = [x for x in table[i]]
+            scales[j] = scales[i]
+    mode = rng.random()
+    for i, qj in enumerate(table):
+        opts = {}
+        if qj[0] in ("single", "repeated", "derived"):
+            if mode < 0.2:
+                opts["name"] = "x"                  # every quantity under the same name
+            elif mode < 0.3:
+                opts["name"] = "x" if i % 2 else "y"
+        if qj[0] == "single" and rng.random() < 0.15:
+            opts["via"] = "array"
+        if qj[0] == "single" and qj[2] is not None and rng.random() < 0.2:
+            e = fx(qj[2])
+            opts["etype"] = rng.choice(["float64", "fraction", "int" if e.is_integer() else "float64",
+                                        "float32" if sl.representable(e, "float32") else "float64"])
+        if opts:
+            table[i] = [x for x in qj if not isinstance(x, dict)] + [opts]
 
 
 def exhaustive_cases(depth):
@@ -471,6 +573,8 @@ def coq_op(op):
                                       coq_operand(op[2]), coq_operand(op[3]))
     if k == "reset":
         return "Reset"
+    if k == "touch":
+        return "(GetCorr Fn (Ref {0}) (Ref {0}))".format(op[1])
     if k == "set_err":
         return "(SetErr {} {})".format(op[1], q_(op[2]))
     return "(SetValue {})".format(op[1])
@@ -522,7 +626,7 @@ def classify(op, r):
         return "{}:{}:{}:{}".format(k, op[1], how, "accepted" if r[0] == "done" else r[1])
     if k.startswith("get"):
         return "{}:{}:{}".format(k, op[1], "value" if r[0] == "ret" else r[1])
-    return "{}:{}".format(k, "ok" if r[0] == "done" else r[1])
+    return "{}:{}".format(k, "ok" if r[0] in ("done", "ret") else r[1])
 
 
 def correspondence(ctx):
@@ -530,7 +634,7 @@ def correspondence(ctx):
     rng = ctx.rng
     cases = [c["case"] for c in load_corpus() if c.get("kind") == "history"]
     n_corpus = len(cases)
-    cases += [gen_case(rng) for _ in range(ctx.n(300, 5000))]
+    cases += [gen_case(rng) for _ in range(ctx.n(300, 4000))]
     n_random = len(cases)
     cases += exhaustive_cases(ctx.n(2, 3))
     runs = []
@@ -549,8 +653,24 @@ def correspondence(ctx):
                                 for d in (desc[op[2]], desc[op[3]])):
                         res.count("numpy-or-int number with a zero-uncertainty operand")
             for d in desc:
+                sd = fx(d[2]) if d[0] == "repeated" else (fx(d[1]) if d[0] in ("single", "derived") else 0.0)
+                if 0 < sd <= 1e-8:
+                    res.count("quantity:std in (0, 1e-8]")
+                elif sd >= 1e5:
+                    res.count("quantity:std >= 1e5")
                 res.count("quantity:" + d[0] + (":zero-std" if (d[0] == "repeated" and fx(d[2]) == 0) or
                                                  (d[0] == "single" and fx(d[1]) == 0) else ""))
+        if i < n_random:
+            if case.get("prelude"):
+                res.count("session:after an earlier session that was not reset")
+            for qj in case["table"]:
+                o = qj[-1] if isinstance(qj[-1], dict) else {}
+                for key in ("name", "via", "etype"):
+                    if o.get(key):
+                        res.count("quantity-option:{}={}".format(key, o[key] if key != "name" else "shared"))
+            tabs = [json.dumps([x for x in qj if not isinstance(x, dict)]) for qj in case["table"] if qj[0] != "constant"]
+            if len(set(tabs)) < len(tabs):
+                res.count("table:distinct objects with equal values / readings")
         if nontrivial(hist):
             res.nontrivial.add(core.canonical_key("h", case))
     res.exhaustive = True
@@ -559,8 +679,11 @@ def correspondence(ctx):
     res.extra["corpus_cases"] = n_corpus
     res.rule = ("random call histories (6-29 calls; set_correlation / set_covariance in function and method form, both argument "
                 "orders, explicit / omitted / non-numeric number, the number as Python float / int / bool or numpy float64 / float32 / "
-                "int64 / int32 scalar of either sign and zero, getters, reset_correlations, .error and .value writes) over 2-5 "
-                "quantities (single with / without error, repeated plain / collinear / with uncertainties / zero spread, calculated, "
+                "int64 / int32 scalar of either sign and zero, getters, reset_correlations, .error (float / numpy / Fraction / int) and .value writes, reading / printing a quantity, the same "
+                "call offered twice; 30% of the sessions follow an earlier, not reset session whose quantities share values, readings "
+                "and names with those of the case; twins (distinct objects with equal value / uncertainty / readings / name), "
+                "elements of a MeasurementArray) over 2-5 "
+                "quantities of individual magnitudes (x 2^-50 ... 2^20; single with / without error, repeated plain / collinear / with uncertainties / zero spread, calculated, "
                 "constant); ~70% of set requests aimed at acceptance, boundary requests exact in doubles, one ulp inside / outside; "
                 "after every call the outcome and the full matrix of q.get_correlation / q.get_covariance are compared with "
                 "Model.Corr.step (1e-9 relative). non-trivial = a history with at least one accepted and one rejected set request "
@@ -683,6 +806,7 @@ def _compare(got, exp, ref, what):
 
 
 def _check_case_oracle(q, case):
+    keep = run_prelude(q, case)             # noqa: F841  (earlier session, kept alive, not reset)
     objs = [sl.build(qj) for qj in case["table"]]
     ref = Ref(q, objs, case["table"])
     got, err = _matrix(q, objs)
@@ -746,6 +870,9 @@ def _check_case_oracle(q, case):
                 ref.kind[op[1]] = "single"      # documented: the value is now considered a single Measurement
             if got != before and ref.kind[op[1]] not in ("single",):
                 pass
+        elif k == "touch":
+            if r[0] != "ret" or got != before:
+                return "{}: reading / printing a quantity changed what is read".format(what)
         elif k in ("get_corr", "get_cov"):
             a, b = op[2], op[3]
             if isinstance(a, int) and isinstance(b, int):
@@ -773,8 +900,18 @@ def load_corpus():
 
 
 def shrink_case(case):
-    ops = shrink_list(case["ops"], lambda o: check_case_oracle({"table": case["table"], "ops": o}, 6) is not None)
-    return {"table": case["table"], "ops": ops}
+    cur = dict(case)
+    if "prelude" in cur:
+        cand = {k: v for k, v in cur.items() if k != "prelude"}
+        if check_case_oracle(cand, 6) is not None:
+            cur = cand
+        else:
+            pops = shrink_list(cur["prelude"]["ops"], lambda o: check_case_oracle(
+                dict(cur, prelude={"table": cur["prelude"]["table"], "ops": o}), 6) is not None)
+            cur["prelude"] = {"table": cur["prelude"]["table"], "ops": pops}
+    ops = shrink_list(cur["ops"], lambda o: check_case_oracle(dict(cur, ops=o), 6) is not None)
+    cur["ops"] = ops
+    return cur
 
 
 def search(ctx, suspects, budget):
